@@ -36,9 +36,11 @@ def configs(tier, seed):
         for ti, tp in enumerate(al.type_patterns(len(b))):
             for di, dens in enumerate(("psd", "indef", "zerodiag")):
                 for ri, tr in enumerate(TRANS):
-                    if tier == "quick" and (bi + ti + di + ri) % 3 != 0:
+                    if tier == "quick" and (bi + 2 * ti + di + ri) % 5 != 0:
                         continue
                     out.append({"basis": bi, "types": list(tp), "dens": dens, "tr": tr, "tier": tier})
+    out.append({"basis": 1, "types": ["spherical"], "dens": "indef", "tr": "square", "tier": tier, "npts": 20})
+    out.append({"basis": 0, "types": ["cartesian"], "dens": "psd", "tr": "none", "tier": tier, "npts": 3})
     return out
 
 
@@ -50,7 +52,8 @@ def build(cfg):
         exps = [(0.5, 1.4, 4.0)[(i + k) % 3] * (1 + 0.5 * k) for k in range(K)]
         shells.append(RefShell(l, cs[i], exps, al.coeffs(K, M, rot=i), cfg["types"][i]))
     c0 = np.array(cs[0])
-    pts = [c0, c0 + np.array([0.0, 0.5, -0.4])] + [np.array(hvec("st-pt%d" % i, 3, -1.8, 1.8)) for i in range(4)]
+    pts = [c0, c0 + np.array([0.0, 0.5, -0.4])] + [np.array(hvec("st-pt%d" % i, 3, -1.8, 1.8))
+                                                    for i in range(4 if not cfg.get("npts") else cfg["npts"] - 2)]
     return shells, np.array(pts)
 
 
